@@ -43,7 +43,7 @@ func (c *Ctx) nonMatching(sc *scenario) *party {
 		return c.freshParty("ssh-ed25519")
 	case 2:
 		// an RSA key not among the recipients
-		for idx := 0; idx < 3; idx++ {
+		for idx := 0; idx < 4; idx++ {
 			p := sshRSAParty(c.model, idx)
 			used := false
 			for _, q := range sc.parties {
@@ -68,6 +68,44 @@ func checkC01(c *Ctx) {
 	// the primitives of C01g.v (Crypto.v) against the libraries age calls; passphrase files over them
 	c.cryptoCorrespondence(c.vol(8, 100), c.vol(1, 10))
 	c.gallinaFiles(c.vol(2, 20), 0)
+	// armored files for every residue of the file length modulo the armor line: each must decrypt
+	{
+		pty := c.freshParty("x25519")
+		for n := 0; n <= 100; n++ {
+			sc := &scenario{parties: []*party{pty}, plain: c.rng.bytes(n), tape: c.rng.bytes(100), armor: true}
+			file, err, _, _ := encryptImpl(sc)
+			var out []byte
+			oc := ":encrypt-failed"
+			if err == nil {
+				_, out, oc = decryptImpl(bytes.NewReader(file), true, []age.Identity{pty.id})
+			}
+			c.Oracle("recipient-decrypts-exact-plaintext", err == nil && bytes.Equal(out, sc.plain) && oc == ":eof", "roundtrip-armored-size", map[string]interface{}{"plaintext_size": n, "armor": true},
+				fmt.Sprintf("an armored file of a %d-byte plaintext does not decrypt to it (outcome %s)", n, oc))
+			c.count("armored-size-sweep")
+		}
+	}
+	// files to RSA recipients of different modulus sizes, each opened by each, in both orders and after a foreign RSA identity
+	{
+		a, b := sshRSAParty(c.model, 0), sshRSAParty(c.model, 3)
+		for _, order := range [][]*party{{a, b}, {b, a}} {
+			sc := &scenario{parties: order, plain: c.rng.bytes(50), tape: c.rng.bytes(200)}
+			file, err, _, _ := encryptImpl(sc)
+			c.Compare("age.Encrypt~Age.encrypt_bytes", sc.describe(), implFileSx(file, err), c.encryptModel(sc))
+			for _, ids := range [][]*party{{a}, {b}, {a, b}, {b, a}, {sshRSAParty(c.model, 1), b}, {sshRSAParty(c.model, 1), a}} {
+				aids := make([]age.Identity, len(ids))
+				isx := make([]string, len(ids))
+				for k, q := range ids {
+					aids[k], isx[k] = q.id, q.isx
+				}
+				impl, out, oc := decryptImpl(bytes.NewReader(file), false, aids)
+				in := sc.describe()
+				in["identities"] = describeIDs(ids)
+				c.Compare("age.Decrypt~Age.decrypt_open+decrypt_spec", in, impl, c.decryptModel(file, false, isx))
+				c.Oracle("recipient-decrypts-exact-plaintext", bytes.Equal(out, sc.plain) && oc == ":eof", "roundtrip", in, "an RSA identity of a listed recipient did not obtain the plaintext (outcome "+oc+")")
+				c.count("rsa-mixed-sizes")
+			}
+		}
+	}
 	n := c.vol(40, 700)
 	for i := 0; i < n; i++ {
 		sc := c.c01Scenario(i)
